@@ -103,6 +103,16 @@ BUILT = {
         design="DESIGN.md section 6 C08",
         technique="TLA+ multi-caller process model checked with TLC (interleavings) + TLC-generated call sequences replayed on shared real objects + TLC trace validation of write sets",
     ),
+    "C09": dict(
+        text=("Grammar.tla is a TLA+ transcription of the condition spec language (tokenisation and lower-casing of the key, "
+              "alias tables, type-name conversion, data-path detection in arguments, signature-driven argument dispatch, "
+              "left fold of and/or/xor lists); Unparse.tla generates spelling variants. TLC checks on a term universe that "
+              "every spelling parses back to the term; those TLC-generated spellings and seeded random spellings of random "
+              "DSL recipes are parsed by the real from_spec and TLC compares the projection of the result with its own "
+              "parse; the parsed object must == the DSL-built one in both directions and filter identically."),
+        design="DESIGN.md section 6 C09",
+        technique="TLA+ grammar of the spec language model-checked with TLC + TLC-generated spellings replayed into from_spec + TLC trace validation",
+    ),
 }
 
 
